@@ -201,6 +201,41 @@ func c09Check(c c09Case) error {
 			return fmt.Errorf("third ReadHeader: %v", err)
 		}
 	}
+	// (1d) write-back really writes: after the image's header bytes were overwritten by something else (the part every
+	// version writes, $FFC0-$FFFF), WriteHeader of the unchanged parsed header restores them; and after HeaderOffset
+	// was changed it writes the header there
+	{
+		for i := 0x10; i < 0x50; i++ {
+			r.Contents[0x7FB0+i] ^= 0x5A
+		}
+		if err := r.WriteHeader(); err != nil {
+			return fmt.Errorf("WriteHeader after the image's header bytes were overwritten: %v", err)
+		}
+		if !bytes.Equal(r.Contents, orig) {
+			i := firstDiff(r.Contents, orig)
+			return fmt.Errorf("the header bytes $FFC0-$FFFF of the image were overwritten after reading; WriteHeader of the parsed header did not restore them: file offset $%X holds %02x, the header says %02x", i, r.Contents[i], orig[i])
+		}
+		for _, off := range []uint32{0x81B0, 0xFFB0} {
+			if int(off)+0x50 > len(orig) {
+				continue
+			}
+			save := append([]byte(nil), r.Contents[off:off+0x50]...)
+			r.HeaderOffset = off
+			err := rig.Safe(func() error { return r.WriteHeader() })
+			r.HeaderOffset = 0x7FB0
+			if err != nil {
+				return fmt.Errorf("WriteHeader after HeaderOffset was set to $%X: %v", off, err)
+			}
+			if !bytes.Equal(r.Contents[off+0x10:off+0x50], c.Header[0x10:]) {
+				return fmt.Errorf("after HeaderOffset was set to $%X, WriteHeader did not store the header there: bytes at $%X are [% x], the header's are [% x]", off, off+0x10, r.Contents[off+0x10:off+0x20], c.Header[0x10:0x20])
+			}
+			copy(r.Contents[off:off+0x50], save)
+			if !bytes.Equal(r.Contents, orig) {
+				return fmt.Errorf("WriteHeader with HeaderOffset $%X changed image byte at file offset $%X outside the header", off, firstDiff(r.Contents, orig))
+			}
+			break
+		}
+	}
 	// (1c) the header may sit elsewhere in the image (HiROM $FFB0, images with a 512-byte copier header): ROM.HeaderOffset
 	for _, off := range []uint32{0xFFB0, 0x81B0} {
 		if int(off)+0x50 > len(orig) {
